@@ -8,6 +8,22 @@ import sys
 ROOT = os.path.dirname(os.path.dirname(os.path.abspath(__file__)))
 
 CLAIMED = {
+    "C12": dict(
+        category="model_checking",
+        text="TLC checks a code-shaped model of incremental_sds_plus (carried/new split, seeded expiry tags, semi-naive rounds with "
+             "improved-tag re-triggering, regrouping per component) against the C12 requirement (least model of the alive facts per "
+             "component, expiry = max over derivations of min over leaf expiries) in every reachable state of all window-consistent "
+             "histories of a small universe; every maximal history of a smaller instance is replayed through the real "
+             "incremental_sds_plus (carrying the returned state) and naive_sds_plus, and seeded random longer histories are recorded "
+             "from the real code; every recorded evaluation is judged by a TLA+ trace specification in which TLC computes the alive "
+             "facts, the least model, the component routing and every expiry.",
+        design_ref="DESIGN.md section 5 (C12)",
+        note="Trusted: TLC, Json module, recording harness (harness/src/c12.rs). Precondition as TLA+ predicates (distinct component "
+             "IRIs, safe positive rules with constant component-annotated predicates, window-consistent histories, constant static "
+             "graphs). Exhaustive only within the cfg constants; the RSPEngine wrapper is not driven (the two functions are called directly).",
+        technique="TLA+ model checking (TLC) of a code-shaped model against the requirement + spec-to-impl replay + trace validation "
+                  "with TLC as Datalog/expiry oracle",
+    ),
     "C11": dict(
         category="model_checking",
         text="MultiTrace.tla states the requirement on every emitted solution of a multi-window continuous query (each WINDOW block's variables "
